@@ -154,8 +154,21 @@ func runC03(c *runCtx) error {
 		ops, obs, snaps := []string{}, []string{}, []string{}
 		hops := []string{}
 		nFail := 0
+		// commits that are not well-formed entries, for annotations to name (they must be refused): an ordinary
+		// commit, and an entry text whose values cannot be decoded (right header and key order)
+		var garbage githash.Hash
+		if tree, err := m.EmptyTree(); err == nil {
+			texts := []string{"just a commit\n", "RSL Reference Entry\n\nref: refs/heads/main\ntargetID: abc123\nnumber: 1",
+				"RSL Reference Entry\n\nref: refs/heads/main\ntargetID: 0123456789012345678901234567890123456789\nnumber: 99999999999999999999",
+				"RSL Annotation Entry\n\nentryID: zz\nskip: true\nnumber: 2"}
+			if g, err := m.createCommit(tree, nil, texts[r.Intn(len(texts))], nil); err == nil {
+				garbage = g
+				ids.target(g)
+				m.created = m.created[:len(m.created)-1] // not part of the log
+			}
+		}
 		for k := 0; k < nOps; k++ {
-			op := genLogOp(r, ids, m.created, k >= legacy, nil)
+			op := genLogOp(r, ids, m.created, k >= legacy, garbage)
 			before := len(m.created)
 			var err error
 			func() {
